@@ -75,6 +75,54 @@ instance : Monad Prog where
 @[simp] theorem bind_eq (x : Prog α) (f : α → Prog β) : (x >>= f) = x.bind f := rfl
 end Prog
 
+/-- a request to the shadow layer, without its continuation -/
+inductive Req
+  | sread (reg n : Nat)
+  | rread (reg : Nat)
+  | swrite (reg : Nat) (data : List UInt8)
+  | bwrite (reg : Nat) (data : List UInt8)
+  | bread (reg n : Nat)
+  | rawbread (reg n : Nat)
+  deriving DecidableEq, Repr
+
+/-- every request the program can issue — whatever the chip and the bus answer, whatever the
+    application does to the handle inside callbacks — satisfies `P` -/
+def Prog.All (P : Req → Prop) : Prog α → Prop
+  | .ret _ => True
+  | .ub _ => True
+  | .sread reg n k => P (.sread reg n) ∧ ∀ r, (k r).All P
+  | .rread reg k => P (.rread reg) ∧ ∀ r, (k r).All P
+  | .swrite reg d k => P (.swrite reg d) ∧ ∀ r, (k r).All P
+  | .bwrite reg d k => P (.bwrite reg d) ∧ ∀ r, (k r).All P
+  | .bread reg n k => P (.bread reg n) ∧ ∀ r, (k r).All P
+  | .rawbread reg n k => P (.rawbread reg n) ∧ ∀ r, (k r).All P
+  | .callback _ _ k => ∀ h, (k h).All P
+
+theorem Prog.All_bind {P : Req → Prop} {x : Prog α} {f : α → Prog β}
+    (hx : x.All P) (hf : ∀ a, (f a).All P) : (x.bind f).All P := by
+  induction x with
+  | ret a => exact hf a
+  | ub u => trivial
+  | sread reg n k ih => exact ⟨hx.1, fun r => ih r (hx.2 r)⟩
+  | rread reg k ih => exact ⟨hx.1, fun r => ih r (hx.2 r)⟩
+  | swrite reg d k ih => exact ⟨hx.1, fun r => ih r (hx.2 r)⟩
+  | bwrite reg d k ih => exact ⟨hx.1, fun r => ih r (hx.2 r)⟩
+  | bread reg n k ih => exact ⟨hx.1, fun r => ih r (hx.2 r)⟩
+  | rawbread reg n k ih => exact ⟨hx.1, fun r => ih r (hx.2 r)⟩
+  | callback e h k ih => exact fun h' => ih h' (hx h')
+
+theorem Prog.All_mono {P Q : Req → Prop} (hPQ : ∀ r, P r → Q r) {x : Prog α} (hx : x.All P) : x.All Q := by
+  induction x with
+  | ret a => trivial
+  | ub u => trivial
+  | sread reg n k ih => exact ⟨hPQ _ hx.1, fun r => ih r (hx.2 r)⟩
+  | rread reg k ih => exact ⟨hPQ _ hx.1, fun r => ih r (hx.2 r)⟩
+  | swrite reg d k ih => exact ⟨hPQ _ hx.1, fun r => ih r (hx.2 r)⟩
+  | bwrite reg d k ih => exact ⟨hPQ _ hx.1, fun r => ih r (hx.2 r)⟩
+  | bread reg n k ih => exact ⟨hPQ _ hx.1, fun r => ih r (hx.2 r)⟩
+  | rawbread reg n k ih => exact ⟨hPQ _ hx.1, fun r => ih r (hx.2 r)⟩
+  | callback e h k ih => exact fun h' => ih h' (hx h')
+
 /-- Driver monad: handle state + C return code over `Prog`.  A C function
     `int f(..., sx127x *device)` is a `DM α`; handle mutations persist on the error path,
     as they do in C. -/
